@@ -3,6 +3,7 @@ import glob
 import importlib.util
 import json
 import os
+import re
 
 from vlib import core, runner
 from .base import Check
@@ -19,7 +20,11 @@ class C18(Check):
                          "unrepaired_targets_subset_allowed_of_isoVisit", "unrepaired_shared_frame_returns_forbidden",
                          "unrepaired_shared_frame_depends_on_visit_order",
                          "joined_objects_allowed", "authenticate_header_only_with_password", "authenticate_cn_only_with_cn",
-                         "model_auth_meets_spec"]
+                         "model_auth_meets_spec",
+                         "action_targets_subset_allowed", "lookup_by_name_allowed", "model_lookup_meets_spec",
+                         "modify_changes_subset_allowed", "bare_check_grants_only_with_match",
+                         "create_grant_partial", "create_ignores_filter_counterexample",
+                         "entry_point_permissions_match_source"]
     technique = ("Lean 4 proof (decision logic stated outright: every object returned on every addressing path satisfies Allowed; "
                  "rejection before any provider call; forbidden name => error; matcher = declarative wildcard language) over a hand-written "
                  "model of FilterUtility::HasPermission/GetFilterTargets; correspondence by differential execution of the real functions "
@@ -28,24 +33,46 @@ class C18(Check):
                   "several matching entries), every non-empty required permission, every query dictionary (single names, plural lists, type, "
                   "filter, any mixture), every inventory, both provider kinds and every answer of the name-index recogniser, the model's outcome "
                   "satisfies the executable specification: returned objects are allowed and registered, no matching entry => permission error "
-                  "with an empty provider-call log, a forbidden existing object addressed by name => error. The model is tied to the code by "
-                  "running the real FilterUtility::HasPermission (all pattern/text pairs up to length 3 (4 thorough) over a 5-letter alphabet "
-                  "plus random permission-shaped pairs), GetFilterTargets (random users x inventories x queries of every shape, each with the "
-                  "default and with a logging provider) HasPermission+EvaluateFilter per object and whole object query/modify requests through HttpHandler::ProcessRequest, and diffing every observation; the same "
-                  "specification predicate is evaluated on the implementation's own observations")
+                  "with an empty provider-call log, a forbidden existing object addressed by name => error; the same for the targets of every "
+                  "action (any registered type list), for the objects a modify request CHANGES (subset of the allowed objects, none without a "
+                  "matching entry), for the by-name lookup of execute-command (what it hands out is the registered object of that type and name "
+                  "and allowed under objects/query/<Type>), for bare permission checks (200 only with a matching entry), joined objects and "
+                  "authentication. Object creation: proved for users whose entries matching objects/create/<Type> carry no filter "
+                  "(create_grant_partial); with a filter the code as it is violates the statement (create_ignores_filter_counterexample, finding "
+                  "F-C18b). The model is tied to the code by running the real FilterUtility::HasPermission (all pattern/text pairs up to length 3 "
+                  "(4 thorough) over a 5-letter alphabet plus random permission-shaped pairs), GetFilterTargets (random users x inventories x "
+                  "queries of every shape, each with the default and with a logging provider), HasPermission+EvaluateFilter per object, "
+                  "ApiActions::GetSingleObjectByNameUsingPermissions, and whole requests through HttpHandler::ProcessRequest: object "
+                  "query/modify (with a real attribute change, changed objects read off the whole inventory)/delete/create (PUT, the object is "
+                  "really created in a scratch _api package), all 11 actions with types and the 3 without (registered callbacks wrapped: the "
+                  "objects the handler invokes the action on are recorded), templates, variables, types, status, console, config packages "
+                  "(GET and POST, package existence observed), debug; every observation is diffed and the same specification predicate is "
+                  "evaluated on the implementation's own observations")
     level_note = ("Negative controls: see NEGATIVE_CONTROLS in checks/c18.py and corpus/C18/negative_controls/*.diff (refactoring, message "
-                  "texts, iteration order / OR order / bookkeeping, guard spellings, translator inputs) - none is reported. Trusted: Lean kernel (+ propext, Classical.choice, Quot.sound); the model's correspondence being sampled; harness/driver; the "
-                  "harness's own evaluation of the generated filter expressions (truth tables are oracle inputs). Not modelled: the DSL "
-                  "evaluating the filters, HTTP parsing, TLS/certificate verification and Base64 decoding (OpenSSL; the decoder's answer is an oracle "
-                  "input of ApiUser::GetByAuthHeader's model; question Q-C18b: an empty certificate CN equals the client_cn of every user that has "
-                  "none, GetByClientCN(\"\") returns such a user - whether a verified certificate can carry an empty CN is outside the model), "
-                  "the create, config, events and debug handlers (their permission strings are in the generated table and used in direct calls, "
-                  "but they are not dispatched); for templates/variables/types/status only grant/refusal is compared (their targets are not "
-                  "config objects); actions other than reschedule-check/remove-acknowledgement are not dispatched.")
+                  "texts, iteration order / OR order / bookkeeping, guard spellings, translator inputs) - none is reported. Known finding F-C18b "
+                  "(classifier create_ignores_filter: clause created_object_is_allowed, creation through entries that ALL carry a filter none of "
+                  "which is true of the new object; a creation without a matching entry is a different clause and stays reported). Trusted: Lean "
+                  "kernel (+ propext, Classical.choice, Quot.sound); the model's correspondence being sampled; harness/driver; the "
+                  "harness's own evaluation of the generated filter expressions (truth tables are oracle inputs, also for the created object). "
+                  "Not modelled: the DSL evaluating the filters, HTTP parsing, TLS/certificate verification and Base64 decoding (OpenSSL; the "
+                  "decoder's answer is an oracle input of ApiUser::GetByAuthHeader's model; question Q-C18b: an empty certificate CN equals the "
+                  "client_cn of every user that has none, GetByClientCN(\"\") returns such a user - whether a verified certificate can carry an "
+                  "empty CN is outside the model), HttpServerConnection's choice between certificate and header; the events handler (it streams "
+                  "until the client disconnects), config stages/files and the DELETE/POST variants of config packages beyond package creation "
+                  "(their permission strings are in the generated table); for templates/variables/types/status only grant/refusal is compared "
+                  "(their targets are not config objects); for the actions other than reschedule-check/remove-acknowledgement the registered "
+                  "callback is NOT executed (the handler's target list is observed, not the action's own effects): secondary objects of "
+                  "schedule-downtime (all_services, child_options), remove-comment/-downtime on Comment/Downtime objects and the five lookups "
+                  "inside ExecuteCommand are covered only through the shared lookup function, which is driven directly; cascade delete of "
+                  "API-created objects is not driven.")
     trusted_base = [
         "modelled, not verified: FilterUtility::HasPermission/CheckPermission/GetFilterTargets and EvaluateFilter's null-filter rule; "
         "permission and user filters are abstract predicates whose truth tables are computed by the harness independently of FilterUtility; "
         "what the C16 name-index recogniser accepts is an oracle input (ApplyRule::GetTargetHosts/GetTargetServices called by the harness)",
+        "modelled, not verified (round 3): ActionsHandler's use of GetFilterTargets with the action's registered types, ModifyObjectHandler "
+        "applying attributes to exactly the returned objects, ApiActions::GetSingleObjectByNameUsingPermissions, CreateObjectHandler's bare "
+        "CheckPermission, the bare checks of console/config/debug/typeless actions; the harness replaces the registered ApiAction callbacks "
+        "by recording wrappers (ApiAction::Register) and reaches the private lookup function through explicit template instantiation",
         "third-party/mmatch match() is modelled by its input/output relation (recursive matcher proved equal to the declarative wildcard "
         "language), tied to the C function by exhaustive small and random permission-shaped pattern/text pairs through HasPermission",
     ]
@@ -243,9 +270,59 @@ class C18(Check):
         res.samples = [l for l in first if not l.startswith("M ")][:10] + ["..."] + [self._line(save, 5000)]
         return res
 
+    @staticmethod
+    def _glob(pattern, text):
+        """third-party/mmatch semantics on lower-cased strings: `*`, `?`, `\\*`, `\\?`."""
+        rx, i, p = "", 0, pattern.lower()
+        while i < len(p):
+            c = p[i]
+            if c == "\\" and i + 1 < len(p) and p[i + 1] in "*?":
+                rx += re.escape(p[i + 1]); i += 2; continue
+            rx += ".*" if c == "*" else "." if c == "?" else re.escape(c)
+            i += 1
+        return re.fullmatch(rx, text.lower(), re.S) is not None
+
+    def matches_known(self, entry, finding):
+        """F-C18b (classifier create_ignores_filter), narrow: the clause is created_object_is_allowed, the minimised case
+        creates an object (cr=1) through PUT /v1/objects/hosts/<name>, at least one entry of the user matches
+        objects/create/Host, EVERY matching entry carries a filter, and none of these filters is true of the new object.
+        A creation without any matching entry (no_permission_rejects_first), a creation next to an unfiltered or a
+        satisfied entry (impossible to flag) and every other clause stay reported."""
+        if entry.get("classifier") != "create_ignores_filter" or finding.kind != "spec":
+            return False
+        if finding.classifier_data.get("clause") != "created_object_is_allowed":
+            return False
+        try:
+            pats = []
+            hit = False
+            for l in finding.case_lines:
+                w = l.split(" | ")[0].split()
+                if not w:
+                    continue
+                if w[0] == "C":
+                    pats = []
+                elif w[0] == "P":
+                    pats.append("" if w[1] == "%e" else w[1])
+                elif w[0] == "H" and w[1] == "c" and " | " in l:
+                    obs = dict(t.split("=", 1) for t in l.split(" | ")[1].split() if "=" in t)
+                    if obs.get("cr") != "1":
+                        continue
+                    nt = obs["nt"][1:]
+                    if len(nt) != len(pats):
+                        return False
+                    matching = [c for p, c in zip(pats, nt) if self._glob(p, "objects/create/" + w[2])]
+                    if not matching or any(c in "-1" for c in matching):
+                        return False
+                    hit = True
+                elif w[0] in ("Q", "A", "X", "G", "M") or (w[0] == "H" and w[1] != "c"):
+                    return False      # the minimised witness of this class consists of C, P and create requests only
+            return hit
+        except (ValueError, IndexError, KeyError):
+            return False
+
     def replay(self, path, harness, driver):
         data = json.load(open(path))
-        lines = [l for l in data.get("case", []) if l[:2] in ("C ", "P ", "Q ", "A ", "M ", "H ", "G ", "K ", "B ", "N ")]
+        lines = [l for l in data.get("case", []) if l[:2] in ("C ", "P ", "Q ", "A ", "M ", "H ", "G ", "K ", "B ", "N ", "X ")]
         f = self.work("replay.ops")
         with open(f, "w") as fh:
             fh.write("\n".join(runner.strip_obs(l) for l in lines) + "\n")
